@@ -36,6 +36,7 @@ pub enum Ev {
     Lock { task: usize, lock: LockId, excl: bool, kind: LockEvKind },
     Spawn { task: usize, worker: usize },
     Point { task: usize, label: &'static str },
+    Cond { task: usize, cond: usize, kind: &'static str },
     DiskRead { task: usize, path: PathBuf, found: bool },
     ClientSend { op: usize },
     ServerRead { bytes: usize },
@@ -115,6 +116,9 @@ pub struct SimState {
     /// addresses of `LockId::Other` locks in order of first use (addresses differ between
     /// processes; the index does not)
     other_locks: Vec<usize>,
+    /// condition variables by address, in order of first use; waiters: (ticket, thread, notified)
+    conds: Vec<usize>,
+    cond_waiters: BTreeMap<usize, Vec<(u64, shuttle::thread::Thread, bool)>>,
     next_token: u64,
     pub torn_down: bool,
     pub stack_size: usize,
@@ -171,6 +175,8 @@ impl Sim {
                 events: Vec::new(),
                 counters: Counters::default(),
                 other_locks: Vec::new(),
+                conds: Vec::new(),
+                cond_waiters: BTreeMap::new(),
                 next_token: 0,
                 torn_down: false,
                 stack_size: cfg.stack_size,
@@ -314,6 +320,77 @@ impl Sim {
         self.sched_point();
     }
 
+    // ---------------------------------------------------------------- condition variables
+
+    fn cond_index(&self, addr: usize) -> usize {
+        let mut st = self.st.borrow_mut();
+        match st.conds.iter().position(|a| *a == addr) {
+            Some(i) => i,
+            None => {
+                st.conds.push(addr);
+                st.conds.len() - 1
+            }
+        }
+    }
+
+    /// Registers the current task as a waiter; the caller releases its mutex afterwards.
+    pub fn cond_prepare(&self, addr: usize) -> u64 {
+        let c = self.cond_index(addr);
+        let mut st = self.st.borrow_mut();
+        st.next_token += 1;
+        let ticket = st.next_token;
+        st.cond_waiters.entry(c).or_default().push((ticket, shuttle::thread::current(), false));
+        st.events.push(Ev::Cond { task: me(), cond: c, kind: "wait" });
+        ticket
+    }
+
+    pub fn cond_block(&self, addr: usize, ticket: u64) {
+        let c = self.cond_index(addr);
+        loop {
+            let done = {
+                let mut st = self.st.borrow_mut();
+                let ws = st.cond_waiters.entry(c).or_default();
+                match ws.iter().position(|w| w.0 == ticket) {
+                    Some(i) if ws[i].2 => {
+                        ws.remove(i);
+                        true
+                    }
+                    Some(_) => false,
+                    None => true,
+                }
+            };
+            if done {
+                break;
+            }
+            shuttle::thread::park();
+        }
+        self.log(Ev::Cond { task: me(), cond: c, kind: "woken" });
+    }
+
+    pub fn cond_notify(&self, addr: usize, all: bool) {
+        let c = self.cond_index(addr);
+        let woken: Vec<shuttle::thread::Thread> = {
+            let mut st = self.st.borrow_mut();
+            let ws = st.cond_waiters.entry(c).or_default();
+            let mut out = Vec::new();
+            for w in ws.iter_mut() {
+                if !w.2 {
+                    w.2 = true;
+                    out.push(w.1.clone());
+                    if !all {
+                        break;
+                    }
+                }
+            }
+            st.events.push(Ev::Cond { task: me(), cond: c, kind: if all { "notify_all" } else { "notify_one" } });
+            out
+        };
+        for t in woken {
+            t.unpark();
+        }
+        self.sched_point();
+    }
+
     /// Human-readable holders/waiters, for deadlock reports.
     pub fn lock_report(&self) -> Vec<String> {
         let st = self.st.borrow();
@@ -338,6 +415,19 @@ impl Sim {
                         waits.remove(task);
                     }
                     LockEvKind::Release => {}
+                }
+            }
+        }
+        for ev in &st.events {
+            if let Ev::Cond { task, cond, kind } = ev {
+                match *kind {
+                    "wait" => {
+                        waits.insert(*task, format!("Condvar({cond})"));
+                    }
+                    "woken" => {
+                        waits.remove(task);
+                    }
+                    _ => {}
                 }
             }
         }
@@ -690,6 +780,22 @@ impl SimHooks for Hooks {
             sim.point(label);
         }
     }
+
+    fn cond_prepare(&self, cond: usize) -> u64 {
+        current().map(|sim| sim.cond_prepare(cond)).unwrap_or(0)
+    }
+
+    fn cond_block(&self, cond: usize, ticket: u64) {
+        if let Some(sim) = current() {
+            sim.cond_block(cond, ticket);
+        }
+    }
+
+    fn cond_notify(&self, cond: usize, all: bool) {
+        if let Some(sim) = current() {
+            sim.cond_notify(cond, all);
+        }
+    }
 }
 
 pub fn install_hooks() {
@@ -725,6 +831,12 @@ pub fn interleaving_hash(events: &[Ev]) -> u64 {
             Ev::DiskRead { task, .. } => {
                 h.u64(4);
                 h.u64(*task as u64);
+            }
+            Ev::Cond { task, cond, kind } => {
+                h.u64(5);
+                h.u64(*task as u64);
+                h.u64(*cond as u64);
+                h.str(kind);
             }
             _ => {}
         }
